@@ -127,3 +127,8 @@ package datastore
 //@   ensures error_frees_slot [C06 C07]: r1 != nil ==> tm.transaction == old(tm.transaction)
 //@   ensures dry_run_sends_nothing [C03]: dryRun ==> ntrace() == n0
 //@   loop 0 invariant tm.transaction == old(tm.transaction) && ntrace() == n0
+
+// ---------------------------------------------------------------------------
+// C20: no-panic sweep over the request validation and conversion functions of the datastore
+//@ sweep C20: (*Datastore).validatePath (*Datastore).validateUpdate (*Datastore).SdcpbTransactionIntentToInternalTI (*Datastore).expandAndConvertIntent
+//@   pathIsKeyAsLeaf validateFieldValue validateLeafTypeValue validateLeafListValue (*Datastore).storeSyncMsg (*Datastore).subscribeResponseFromCacheUpdate
